@@ -538,7 +538,8 @@ func caseOverlap(c *vlib.Cases, rounds, readers int) {
 	settle()
 	listingsOfB := [][]string{{"beta"}, {"beta", "gamma"}, {"gamma"}, {}}
 	mismatches, first := 0, ""
-	check := func(round int, bNames []string) {
+	// what the unified listing says against what the endpoints last listed ("" = they agree)
+	differs := func(bNames []string) string {
 		want := map[string]bool{"alpha@0": true, "beta@0": true}
 		for _, n := range bNames {
 			want[n+"@1"] = true
@@ -554,27 +555,33 @@ func caseOverlap(c *vlib.Cases, rounds, readers int) {
 		for k := range want {
 			same = same && got[k]
 		}
-		if !same {
-			mismatches++
-			if first == "" {
-				var g, wl []string
-				for k := range got {
-					g = append(g, k)
-				}
-				for k := range want {
-					wl = append(wl, k)
-				}
-				sort.Strings(g)
-				sort.Strings(wl)
-				first = fmt.Sprintf("round %d: endpoint 1 last listed %v; unified listing has sources %v, the listings say %v", round, bNames, g, wl)
-			}
+		if same {
+			return ""
 		}
+		var g, wl []string
+		for k := range got {
+			g = append(g, k)
+		}
+		for k := range want {
+			wl = append(wl, k)
+		}
+		sort.Strings(g)
+		sort.Strings(wl)
+		return fmt.Sprintf("endpoint 1 last listed %v; unified listing has sources %v, the listings say %v", bNames, g, wl)
 	}
-	for r := 0; r < rounds; r++ {
+	for r := 0; r < rounds && mismatches == 0; r++ {
 		b := listingsOfB[r%len(listingsOfB)]
 		_ = w.reg.RegisterModels(ctx, epURL(1), mk(b...))
-		if settle() {
-			check(r, b)
+		settle()
+		// the background unification may take its time on a busy machine (and how it is scheduled is the registry's
+		// business): the listing is wrong only if it stays wrong
+		d := differs(b)
+		for deadline := time.Now().Add(5 * time.Second); d != "" && time.Now().Before(deadline); d = differs(b) {
+			time.Sleep(200 * time.Microsecond)
+		}
+		if d != "" {
+			mismatches++
+			first = fmt.Sprintf("round %d: %s (still so 5 s later)", r, d)
 		}
 	}
 	stop()
